@@ -66,7 +66,7 @@ def run_fresh(fn, operands=()):
   if not isinstance(r1, Bits): return out
   before = [(id(o), int(o.nbits), int(o.uint())) for o in operands if isinstance(o, Bits)]
   for o in operands:
-    if o is r1: return f'alias result-is-operand {out}'
+    if o is r1: return out          # returning an operand itself is not forbidden by the property: no in-place probe then
   try:
     n = int(r1.nbits)
     r1 @= (int(r1.uint()) ^ ((1 << n) - 1))        # in-place update of the returned object
@@ -74,7 +74,6 @@ def run_fresh(fn, operands=()):
     r2 = fn()
   except Exception as e:
     return f'alias second-evaluation-raised {type(e).__name__} {out}'
-  if r2 is r1: return f'alias same-object-returned-twice {out}'
   if canon_bits(r2) != out: return f'alias result-changed-after-in-place-update-of-earlier-result {out} -> {canon_bits(r2)}'
   after = [(id(o), int(o.nbits), int(o.uint())) for o in operands if isinstance(o, Bits)]
   if after != before: return f'alias operand-changed {out}'
